@@ -36,6 +36,11 @@ def on_stop_oracle(ix: Index) -> list[Violation]:
             # whatever the library made of the report: its stop callback is due
             fds = [ev[4]["fd"] for ev in ix.h if ev[3] == "tr_new" and ix.fd_conn.get(ev[4]["fd"]) == c]  # (not the losers of a connect race)
             gone = [ev for ev in ix.h if ev[3] == "sock_close" and ev[4].get("fd") in fds]
+            forced = [sq for sq, force, _st in ix.disc_calls.get(c, []) if force]
+            if forced and not calls and ix.run_end and ix.run_end[1] > ix.seq_turn[forced[0]] + 2:
+                # disconnect(force=True) closes at once: when it has returned the session is over and its stop callback is due
+                out.append(Violation("stop-missing", "force-returned", f"{c} was established and disconnect(force=True) was called on it at turn {ix.seq_turn[forced[0]]}, but the connection never closed and the stop callback never ran"))
+                continue
             if fds and gone and not calls and ix.run_end and ix.run_end[1] > gone[0][1] + 2:
                 out.append(Violation("stop-missing", "transport-gone", f"{c} was established, its socket was closed at turn {gone[0][1]}, but the connection never closed and the stop callback never ran"))
             continue
@@ -185,6 +190,22 @@ class C07(CheckBase):
                 scn["events"] = [{"at": {"on": "state", "match": {"new": "HANDSHAKE_COMPLETE"}, "delay": pick(rng, [0.0, 0.1])}, "do": "start_actor", "actor": "closer", "phase": "post"}]
                 scn["net"]["connect"] = {a: [{"outcome": "ok", "latency": 0.001}] for a in scn["client"]["addresses"]}
                 scn["net"]["cuts"] = pick(rng, [{"mode": "coalesce"}, {"mode": "sends"}])
+                yield scn
+                return
+            if sub == 4:
+                # the usual escalation: a graceful disconnect() that the caller gives up on (the device does not answer, the
+                # caller's own timeout cancels the call), then disconnect(force=True) - the session is over when that returns
+                scn["device"].setdefault("replies", {})["DisconnectRequest"] = ["silent"]
+                scn["device"].pop("reply_delay", None)
+                scn["actors"] = [{"id": "a0", "at": {"t": 0.0}, "steps": [{"do": "connect", "login": rng.random() < 0.5}, {"do": "sleep", "d": 60.0}]},
+                                 {"id": "closer", "at": "manual", "steps": [{"do": "disconnect"}]}, {"id": "forcer", "at": "manual", "steps": [{"do": "disconnect", "force": True}]}]
+                t_call = pick(rng, [0.5, 1.0])
+                t_giveup = t_call + pick(rng, [0.05, 0.5, 3.0])
+                scn["events"] = [{"at": {"on": "state", "match": {"new": "CONNECTED"}, "delay": t_call}, "do": "start_actor", "actor": "closer", "phase": "post"},
+                                 {"at": {"on": "state", "match": {"new": "CONNECTED"}, "delay": t_giveup}, "do": "poke", "what": "cancel", "target": "closer", "phase": "pre"},
+                                 {"at": {"on": "state", "match": {"new": "CONNECTED"}, "delay": t_giveup + pick(rng, [0.0, 0.01, 1.0])}, "do": "start_actor", "actor": "forcer", "phase": "post"}]
+                scn["net"]["connect"] = {a: [{"outcome": "ok", "latency": 0.001}] for a in scn["client"]["addresses"]}
+                scn["end"] = 100.0
                 yield scn
                 return
             if sub == 0:
